@@ -66,7 +66,7 @@ PROPERTIES: dict[str, dict] = {
             "rule": _SITE_RULE},
     "C19": {
         "title": "Saved results read back faithfully and are never overwritten",
-        "rules": [save.rule_c19_saver, save.rule_c19_output_roundtrip, save.rule_c19_commands, save.rule_c19_readers],
+        "rules": [save.rule_c19_saver, save.rule_c19_output_roundtrip, save.rule_c19_commands, save.rule_c19_readers, hygiene.rule_no_module_state, hygiene.rule_dtypes],
         "explanation": _NOTE + " C19: W1 skip-if-present dominates writes; W2 serialised mapping = loaded mapping + new key; "
                        "W3 Output.json/from_json key and column agreement; W4 commands store position 0/1 of what they computed; "
                        "W5 written content is installed; REG-V saver registry and dispatcher.",
@@ -74,7 +74,7 @@ PROPERTIES: dict[str, dict] = {
     },
     "C20": {
         "title": "Saving results is all-or-nothing under a crash",
-        "rules": [save.rule_c20_atomic],
+        "rules": [save.rule_c20_atomic, hygiene.rule_no_module_state],
         "explanation": _NOTE + " C20: A1 destination never opened for writing in place; A2 temporary sibling; "
                        "A3 atomic replace after close on every writing path; A4 destination never removed.",
         "rule": "one obligation per (rule, write/replace/remove site) reachable from SAVERS['data.json']",
